@@ -785,7 +785,7 @@ pub fn jobs(prop: &str, ctx: &Ctx) -> Vec<Job> {
     let mut r = SimRng::new(mix(&[ctx.seed, 0xC01, prop.as_bytes()[2] as u64]));
     match prop {
         "C01" => {
-            let (n_grid, n_rand, r_per) = if thorough { (100_000_000u64, 10_000_000u64, 32) } else { (2_000_000, 500_000, 4) };
+            let (n_grid, n_rand, r_per) = if thorough { (100_000_000u64, 10_000_000u64, 32) } else { (8_000_000, 500_000, 4) };
             for s in [Scalar::F32, Scalar::F64] {
                 for fam in env::CONT_FAMILIES {
                     for spec in env::cont_grid(fam, s) {
@@ -806,7 +806,7 @@ pub fn jobs(prop: &str, ctx: &Ctx) -> Vec<Job> {
             }
         }
         "C02" => {
-            let (n_grid, n_rand, r_per) = if thorough { (50_000_000u64, 5_000_000u64, 32) } else { (2_000_000, 500_000, 4) };
+            let (n_grid, n_rand, r_per) = if thorough { (50_000_000u64, 5_000_000u64, 32) } else { (10_000_000, 500_000, 4) };
             for s in [Scalar::F32, Scalar::F64] {
                 for fam in env::DISC_FLOAT_FAMILIES {
                     for spec in env::disc_grid(fam, s) {
